@@ -12,7 +12,7 @@ import numpy as np
 
 from .. import gen, probes
 from ..common import Outcome, digest, subseed
-from ..oracles import EPS, dense_from_compact, middle_cond, model_tol, model_value, ref_gcp, ref_subspace
+from ..oracles import has_pairs, EPS, dense_from_compact, middle_cond, model_tol, model_value, ref_gcp, ref_subspace
 from .C08 import VARP, build_pattern_input, make_memory
 
 LEVEL = "exploration"
@@ -72,7 +72,7 @@ def judge_subspace(out, x, xc, g, lb, ub, B, xbar, where, tags, mats=None):
         out.count("binding_truncation")
     scale = max(1.0, float(np.max(np.abs(x))), float(np.max(np.abs(ref["xbar"] - x))))
     err = float(np.max(np.abs(xbar - ref["xbar"])))
-    npairs = int(mats.S.shape[1]) if (mats is not None and mats.use_factor) else 0
+    npairs = int(mats.S.shape[1]) if (mats is not None and has_pairs(mats)) else 0
     if npairs > free.size > 0:
         # more pairs than free variables: the 2m x 2m system the routine factorises is singular in exact arithmetic
         # (S^T Y restricted to the free variables has rank <= #free); only rounding-level accuracy relative to that
@@ -129,7 +129,7 @@ def synthetic_input(out, keys, x, g, lb, ub, mats, B, where, tags):
         if np.isfinite(r["t"][i]) and r["t"][i] <= r["tstar"] and r["t"][i] > 0:
             xc[i] = ub[i] if g[i] < 0 else lb[i]
     xc = np.clip(xc, lb, ub)
-    c = mats.W.T @ r["z"] if mats.use_factor else np.zeros(mats.W.shape[1])
+    c = mats.W.T @ r["z"] if has_pairs(mats) else np.zeros(mats.W.shape[1])
     try:
         xbar = call_subspace(x, xc, c, g, lb, ub, mats)
     except Exception as e:
@@ -240,7 +240,7 @@ def run(spec):
                     return
                 B = dense_from_compact(mats, P.n)
                 consistent = True
-                if mats.use_factor:
+                if has_pairs(mats):
                     want = mats.W.T @ (xc - x)
                     floor = 64 * EPS * float(np.max(np.abs(mats.W).T @ (np.abs(x) + np.abs(xc))))
                     if not np.max(np.abs(a["c"] - want)) <= 1e-6 * float(np.max(np.abs(mats.W).T @ np.abs(xc - x))) + floor:
